@@ -151,8 +151,21 @@ def optimize_contains_types(source: str) -> str:
         collection=(ast.ListComp, ast.DictComp, ast.SetComp, ast.List, ast.Tuple),
     )
 
+    def lazy_is_the_same(comp: ast.AST) -> bool:
+        # The generator stops at the first hit. What the comprehension would have done for the
+        # elements behind it must not matter: using up an iterator, calling something.
+        parts = [condition for generator in comp.generators for condition in generator.ifs]
+        parts += [comp.key, comp.value] if isinstance(comp, ast.DictComp) else [comp.elt]
+        return all(
+            _is_collection(generator.iter, root, strings=True) for generator in comp.generators
+        ) and not any(core.has_side_effect(part) for part in parts)
+
     for node in core.walk(root, template):
         for comp in node.comparators:
+            if isinstance(comp, (ast.ListComp, ast.SetComp, ast.DictComp)):
+                if not lazy_is_the_same(comp):
+                    continue
+
             if isinstance(comp, (ast.ListComp, ast.SetComp)):
                 yield comp, ast.GeneratorExp(elt=comp.elt, generators=comp.generators)
 
